@@ -188,6 +188,10 @@ func (rs *ReferenceScope) CreateScopeForRecordEvaluation(view *View, recordIndex
 	records[0] = NewReferenceRecord(view, recordIndex, view.FieldLen())
 	for i := range rs.Records {
 		records[i+1] = rs.Records[i]
+		// The new scope may be used by another goroutine than the outer one: do not share the field index cache.
+		if rs.Records[i].cache != nil {
+			records[i+1].cache = NewFieldIndexCache(cap(rs.Records[i].cache.exprs), LimitToUseFieldIndexSliceChache)
+		}
 	}
 	return rs.createScope(records)
 }
